@@ -218,24 +218,21 @@ neg_assign_row(PIP_Tree_Node::Row& x, const PIP_Tree_Node::Row& y) {
 
 // Given context row \p y and denominator \p denom,
 // to be interpreted as expression expr = y / denom,
-// assigns to context row \p x a new value such that
-//     x / denom == - expr - 1.
+// assigns to context row \p x a new value such that, for all integer
+// values of the parameters, x >= 0 if and only if expr < 0.
 inline void
 complement_assign(PIP_Tree_Node::Row& x,
                   const PIP_Tree_Node::Row& y,
                   Coefficient_traits::const_reference denom) {
   PPL_ASSERT(denom > 0);
+  PPL_USED(denom);
   neg_assign_row(x, y);
   PIP_Tree_Node::Row::iterator itr = x.insert(0);
   Coefficient& x_0 = *itr;
-  if (denom == 1) {
-    --x_0;
-  }
-  else {
-    PPL_DIRTY_TEMP_COEFFICIENT(mod);
-    pos_rem_assign(mod, x_0, denom);
-    x_0 -= (mod == 0) ? denom : mod;
-  }
+  // The coefficients of y are integers and so are the values of the
+  // parameters: y < 0 if and only if -y - 1 >= 0, whatever (positive)
+  // denominator y is meant to be divided by.
+  --x_0;
   if (x_0 == 0) {
     x.reset(itr);
   }
@@ -2795,11 +2792,10 @@ PIP_Solution_Node::solve(const PIP_Problem& pip,
           continue;
         }
         // Check compatibility of constraint t_i(z) > 0.
+        // (Integer coefficients and parameters: t_i(z) - 1 >= 0.)
         Row row(tableau.t[i]);
-        PPL_DIRTY_TEMP_COEFFICIENT(mod);
         Coefficient& row0 = row[0];
-        pos_rem_assign(mod, row0, tableau_denom);
-        row0 -= (mod == 0) ? tableau_denom : mod;
+        --row0;
         WEIGHT_ADD(210);
         const bool compatible = compatibility_check(ctx, row);
         // Maybe update sign (and first_* indices).
